@@ -37,3 +37,9 @@ Theorem C09_ideal_symbols : forall tbl D, table_ok tbl = true -> min_sqdist_ge (
   forall es, (forall e, In e es -> In e tbl) -> demodulate tbl (map fst es) = concat (map snd es).
 Proof. exact demodulate_ideal. Qed.
 Print Assumptions C09_ideal_symbols.
+
+(* the same statement for the brute-force maximum-likelihood decoder: no syndrome table, only the minimum distance *)
+Theorem C09_bounded_bit_errors_ml : forall k gs t tx, min_distance_ge k gs (2 * t + 1) = true ->
+  forall m e, (m < 2 ^ N.of_nat k)%N -> (wt e <= t)%nat -> tx (comb m gs) = N.lxor (comb m gs) e -> link_ml k gs tx m = m.
+Proof. exact link_ml_bounded_errors. Qed.
+Print Assumptions C09_bounded_bit_errors_ml.
